@@ -366,7 +366,7 @@ func c14R34(r *Report) {
 				length = pa
 			}
 		}
-		var do, cp *ssa.Call
+		var do, cp, cpN *ssa.Call
 		var cpSrc ssa.Value
 		// copiesParam: the helper hands its k-th parameter to io.Copy as the source
 		copiesParam := func(h *ssa.Function, k int) bool {
@@ -389,6 +389,9 @@ func c14R34(r *Report) {
 			if isStdCall(c, "io", "", "Copy") {
 				cp, cpSrc = c, c.Call.Args[1]
 			}
+			if isStdCall(c, "io", "", "CopyN") && len(c.Call.Args) == 3 {
+				cpN = c
+			}
 			// the copy may sit in a helper of the package that is handed the (already limited) body: ws.copyBody(w, body)
 			if h := c.Call.StaticCallee(); h != nil && !c.Call.IsInvoke() && relPkg(h) == "webseed" && cp == nil {
 				for k := range c.Call.Args {
@@ -397,6 +400,12 @@ func c14R34(r *Report) {
 					}
 				}
 			}
+		}
+		if length != nil && do != nil && cp == nil && cpN != nil {
+			// io.CopyN(w, body, length) is io.Copy(w, io.LimitReader(body, length))
+			r.Check(stripIntConv(cpN.Call.Args[2]) == length, "R3", sp.fn+"/body-bounded-on-every-path", cpN.Pos(), "the body is copied with io.CopyN limited to the requested length",
+				"io.CopyN copies a number of bytes that is not the requested length: a server that sends more than was asked for spills bytes past the file chunk into the next file's range")
+			continue
 		}
 		if length == nil || do == nil || cp == nil {
 			r.Undecided("R3", sp.fn+"/shape", f.Pos(), "cannot find the length parameter, client.Do or io.Copy")
